@@ -181,6 +181,23 @@ func (r *Report) Write(path string) error {
 	return os.WriteFile(path, b, 0o644)
 }
 
+// WriteSnapshot writes the current state without finishing the report (used by
+// children that may be ended by the code under test at any time).
+func (r *Report) WriteSnapshot(path string) {
+	r.mu.Lock()
+	e, d, w := r.Evaluations, r.Distinct, r.WallS
+	r.Evaluations = r.evals.Load()
+	r.Distinct = d + int64(len(r.distinct))
+	r.WallS = time.Since(r.start).Seconds()
+	b, err := json.Marshal(r)
+	r.Evaluations, r.Distinct, r.WallS = e, d, w
+	r.mu.Unlock()
+	if err == nil {
+		os.WriteFile(path+".tmp", b, 0o644)
+		os.Rename(path+".tmp", path)
+	}
+}
+
 func Load(path string) (*Report, error) {
 	b, err := os.ReadFile(path)
 	if err != nil {
